@@ -27,7 +27,9 @@ type txCfg struct {
 	stepsMin, stepsMax   int
 	ops                  []string // weighted list of op kinds
 	crossBranchWrites    bool
-	acOnPercent          int // chance that a session starts with autocommit=1
+	acOnPercent          int    // chance that a session starts with autocommit=1
+	kindWeights          [4]int // insert, replace, update, delete
+	pkPredPercent        int    // share of UPDATE/DELETE predicates of the form pk = k
 }
 
 type txCase struct {
@@ -46,6 +48,7 @@ type txCase struct {
 	rejected       int
 	excluded       int
 	headHash       map[string]string
+	headUnsure     map[string]bool
 }
 
 func (c *txCase) class(s string) { c.cls[s] = true }
@@ -109,9 +112,10 @@ func (c *txCase) genRow(sc *txSchema, pk int, label string) vsql.Row {
 }
 
 func (c *txCase) genPred(sc *txSchema, label string) txPred {
-	switch k := rapid.IntRange(0, 9).Draw(c.rt, label+".pred"); {
-	case k < 6:
+	if rapid.IntRange(0, 99).Draw(c.rt, label+".bypk") < c.cfg.pkPredPercent {
 		return txPred{kind: "pk", lo: rapid.IntRange(1, c.cfg.pkMax).Draw(c.rt, label+".pk")}
+	}
+	switch k := rapid.IntRange(6, 9).Draw(c.rt, label+".pred"); {
 	case k < 8:
 		lo := rapid.IntRange(1, c.cfg.pkMax).Draw(c.rt, label+".lo")
 		return txPred{kind: "range", lo: lo, hi: lo + rapid.IntRange(0, 2).Draw(c.rt, label+".span")}
@@ -129,12 +133,13 @@ func (c *txCase) genPred(sc *txSchema, label string) txPred {
 func (c *txCase) genWrite(tgt txTarget, label string, view *vsql.Table) *txWrite {
 	sc := c.m.db.schema(tgt.table)
 	w := &txWrite{tgt: tgt}
-	switch k := rapid.IntRange(0, 19).Draw(c.rt, label+".kind"); {
-	case k < 6:
+	kw := c.cfg.kindWeights // insert, replace, update, delete
+	switch k := rapid.IntRange(0, kw[0]+kw[1]+kw[2]+kw[3]-1).Draw(c.rt, label+".kind"); {
+	case k < kw[0]:
 		w.kind = "insert"
-	case k < 8:
+	case k < kw[0]+kw[1]:
 		w.kind = "replace"
-	case k < 16:
+	case k < kw[0]+kw[1]+kw[2]:
 		w.kind = "update"
 	default:
 		w.kind = "delete"
@@ -431,6 +436,13 @@ func (c *txCase) doWrite(s *txSess) {
 	tgt := txTarget{b, sc.name}
 	c.m.begin(s)
 	w := c.genWrite(tgt, "write", c.m.view(s, tgt, false))
+	if w.kind == "insert" && s.ac && !s.explicit && txStaleTxOpen() && rapid.IntRange(0, 9).Draw(rt, "write.keepdup") > 0 {
+		// known finding: keep most failing statements out of autocommit sessions (each one costs
+		// an excluded step); the statement becomes a REPLACE when it would hit an existing key
+		if w.apply(c.m.view(s, tgt, false).Clone()) {
+			w.kind = "replace"
+		}
+	}
 	q := w.sql(sc, c.workingRef(s, tgt, false))
 	own := c.m.ownTable(s, tgt)
 	trial := own.Clone()
@@ -446,7 +458,7 @@ func (c *txCase) doWrite(s *txSess) {
 		if s.ac && !s.explicit {
 			c.class("failed_dml_in_autocommit")
 			if txStaleTxOpen() {
-				s.mustReset = true
+				s.staleTx = true
 				c.excluded++
 			}
 		}
@@ -533,6 +545,7 @@ func (c *txCase) doRollback(s *txSess) {
 	c.m.end(s)
 	s.explicit = false
 	s.mustReset = false
+	s.staleTx = false
 	if b != "" {
 		c.class("rollback_with_writes")
 	}
@@ -625,7 +638,7 @@ func (c *txCase) doDoltCommit(s *txSess) {
 	err := s.conn.Exec(q)
 	c.logf("%s: %s -> %s", s.name, q, errStr(err))
 	switch {
-	case nothing && !info.conflict:
+	case nothing && !info.conflict && !(c.headUnsure[b] && err == nil):
 		// dolt_commit "is expected to COMMIT": with nothing to put into a dolt commit it still commits
 		// the SQL transaction (dolt_commit.go: "Finalize the transaction if there is one") and then
 		// reports "nothing to commit".
@@ -704,9 +717,9 @@ func (c *txCase) doDoltCommit(s *txSess) {
 			ks = append(ks, k)
 		}
 		sort.Strings(ks)
+		nLoose += len(loose[tgt])
 		for _, k := range ks {
 			if loose[tgt][k] {
-				nLoose++
 				continue
 			}
 			g, hg := got.Rows[k]
@@ -720,7 +733,20 @@ func (c *txCase) doDoltCommit(s *txSess) {
 		c.m.db.setH(tgt, got)
 	}
 	if nLoose > 0 {
+		// Where the head-level merge conflicts dolt keeps one side's row and (observed) records a
+		// conflict artifact inside the new commit that no SELECT of the table shows; until a later
+		// dolt_commit rewrites the head from a clean view, "nothing to commit" cannot be predicted.
 		c.class("doltcommit_head_undetermined_rows")
+		c.headUnsure[b] = true
+		if r, e := c.obs.Query("SELECT COUNT(*) FROM `" + c.m.dbn + "/" + b + "`.dolt_status"); e == nil && len(r.Data) == 1 && r.Data[0][0] == "0" {
+			for _, sc := range c.m.db.schemas {
+				if a, e2 := c.obs.Query("SELECT COUNT(*) FROM dolt_conflicts_" + sc.name + " AS OF '" + b + "'"); e2 == nil && len(a.Data) == 1 && a.Data[0][0] != "0" {
+					c.class("observed_conflict_artifact_in_head_commit")
+				}
+			}
+		}
+	} else if !headMoved {
+		c.headUnsure[b] = false
 	}
 	for tgt, t := range merged {
 		c.m.db.setW(tgt, t)
@@ -768,7 +794,7 @@ func (c *txCase) doDoltCommit(s *txSess) {
 // one generated case
 
 func txRunCase(rt *rapid.T, srv *vsql.Server, admin *vsql.Session, cfg *txCfg, rec *vh.Recorder) {
-	c := &txCase{rt: rt, cfg: cfg, srv: srv, cls: map[string]bool{}, headHash: map[string]string{}}
+	c := &txCase{rt: rt, cfg: cfg, srv: srv, cls: map[string]bool{}, headHash: map[string]string{}, headUnsure: map[string]bool{}}
 	dbn := srv.NewDBName()
 	admin.MustExec(rt, "CREATE DATABASE "+dbn)
 	defer admin.Exec("DROP DATABASE " + dbn)
@@ -886,6 +912,11 @@ func txRunCase(rt *rapid.T, srv *vsql.Server, admin *vsql.Session, cfg *txCfg, r
 	steps := rapid.IntRange(cfg.stepsMin, cfg.stepsMax).Draw(rt, "steps")
 	for i := 0; i < steps; i++ {
 		s := c.sess[rapid.IntRange(0, ns-1).Draw(rt, "session")]
+		if s.staleTx {
+			// known finding: end the transaction the failed statement left behind before anything else
+			c.doRollback(s)
+			continue
+		}
 		if s.mustReset {
 			if rapid.Bool().Draw(rt, "reset.commit") {
 				c.doCommit(s)
@@ -920,7 +951,9 @@ func txRunCase(rt *rapid.T, srv *vsql.Server, admin *vsql.Session, cfg *txCfg, r
 	// every open transaction commits, in a drawn order
 	order := rapid.Permutation(c.sess).Draw(rt, "final.order")
 	for _, s := range order {
-		if s.inTx {
+		if s.staleTx {
+			c.doRollback(s)
+		} else if s.inTx {
 			c.doCommit(s)
 		}
 	}
